@@ -266,40 +266,48 @@ struct Targeted {
     codes: Vec<u64>,
 }
 
-/// Cases RFC 9000 pins down; victim is the server (attacker = client).
-fn targeted_cases(server_max_bidi: u64) -> Vec<Targeted> {
+/// Cases RFC 9000 pins down. The victim is the server (attacker = client) or, in "hostile
+/// server" worlds, the client.
+fn targeted_cases(victim_is_server: bool, victim_max_bidi: u64, attacker_cid_len: usize) -> Vec<Targeted> {
     use wire::code::*;
     let mut c = Vec::new();
     let mut f = Vec::new();
+    let vs = victim_is_server;
+    // unidirectional stream 0 of either side, and stream ids by initiator
+    let victim_uni0: u64 = if vs { 3 } else { 2 };
+    let attacker_uni0: u64 = if vs { 2 } else { 3 };
+    let attacker_bidi = |idx: u64| (idx << 2) | if vs { 0 } else { 1 };
+    let victim_bidi = |idx: u64| (idx << 2) | if vs { 1 } else { 0 };
+    let victim_uni = |idx: u64| (idx << 2) | if vs { 3 } else { 2 };
     // STREAM on a server-initiated unidirectional stream (send-only for the server)
     f.extend_from_slice(&[0x0a]);
-    put_var(&mut f, 3);
+    put_var(&mut f, victim_uni0);
     put_var(&mut f, 1);
     f.push(b'x');
     c.push(Targeted { name: "stream-on-send-only", frames: f.clone(), codes: vec![STREAM_STATE_ERROR] });
     // STREAM beyond the advertised stream count
     f.clear();
     f.push(0x0a);
-    put_var(&mut f, (server_max_bidi + 5) << 2);
+    put_var(&mut f, attacker_bidi(victim_max_bidi + 5));
     put_var(&mut f, 1);
     f.push(b'x');
     c.push(Targeted { name: "stream-beyond-stream-limit", frames: f.clone(), codes: vec![STREAM_LIMIT_ERROR] });
     // MAX_STREAM_DATA on a receive-only stream (client-initiated uni, as seen by the server)
     f.clear();
     f.push(0x11);
-    put_var(&mut f, 2);
+    put_var(&mut f, attacker_uni0);
     put_var(&mut f, 1000);
     c.push(Targeted { name: "max-stream-data-on-recv-only", frames: f.clone(), codes: vec![STREAM_STATE_ERROR] });
     // STOP_SENDING on a receive-only stream
     f.clear();
     f.push(0x05);
-    put_var(&mut f, 2);
+    put_var(&mut f, attacker_uni0);
     put_var(&mut f, 1);
     c.push(Targeted { name: "stop-sending-on-recv-only", frames: f.clone(), codes: vec![STREAM_STATE_ERROR] });
     // RESET_STREAM on a send-only stream
     f.clear();
     f.push(0x04);
-    put_var(&mut f, 3);
+    put_var(&mut f, victim_uni0);
     put_var(&mut f, 1);
     put_var(&mut f, 0);
     c.push(Targeted { name: "reset-on-send-only", frames: f.clone(), codes: vec![STREAM_STATE_ERROR] });
@@ -312,10 +320,15 @@ fn targeted_cases(server_max_bidi: u64) -> Vec<Targeted> {
     f.clear();
     put_var(&mut f, 0x40);
     c.push(Targeted { name: "unknown-frame-type", frames: f.clone(), codes: vec![FRAME_ENCODING_ERROR] });
-    // HANDSHAKE_DONE from a client
-    c.push(Targeted { name: "handshake-done-from-client", frames: vec![0x1e], codes: vec![PROTOCOL_VIOLATION] });
-    // NEW_TOKEN from a client
-    c.push(Targeted { name: "new-token-from-client", frames: vec![0x07, 0x02, 1, 2], codes: vec![PROTOCOL_VIOLATION] });
+    if vs {
+        // HANDSHAKE_DONE from a client
+        c.push(Targeted { name: "handshake-done-from-client", frames: vec![0x1e], codes: vec![PROTOCOL_VIOLATION] });
+        // NEW_TOKEN from a client
+        c.push(Targeted { name: "new-token-from-client", frames: vec![0x07, 0x02, 1, 2], codes: vec![PROTOCOL_VIOLATION] });
+    } else {
+        // NEW_TOKEN with an empty token (§19.7)
+        c.push(Targeted { name: "new-token-empty", frames: vec![0x07, 0x00], codes: vec![FRAME_ENCODING_ERROR] });
+    }
     // ACK of a packet that was never sent
     f.clear();
     f.push(0x02);
@@ -356,16 +369,97 @@ fn targeted_cases(server_max_bidi: u64) -> Vec<Targeted> {
     // (on a stream the honest workload never touches: client-initiated bidi stream 50)
     f.clear();
     f.push(0x0f);
-    put_var(&mut f, 200);
+    put_var(&mut f, attacker_bidi(50));
     put_var(&mut f, 10);
     put_var(&mut f, 1);
     f.push(b'a');
     f.push(0x0f);
-    put_var(&mut f, 200);
+    put_var(&mut f, attacker_bidi(50));
     put_var(&mut f, 20);
     put_var(&mut f, 1);
     f.push(b'b');
     c.push(Targeted { name: "two-final-sizes", frames: f.clone(), codes: vec![FINAL_SIZE_ERROR] });
+    // frames for streams the victim would have to open itself and has not (server-initiated
+    // bidirectional / unidirectional stream 50): RFC 9000 §19.8, §19.10, §19.5
+    let unopened_bi = victim_bidi(50);
+    let unopened_uni = victim_uni(50);
+    f.clear();
+    f.push(0x0a);
+    put_var(&mut f, unopened_bi);
+    put_var(&mut f, 1);
+    f.push(b'x');
+    c.push(Targeted { name: "stream-on-unopened-local-stream", frames: f.clone(), codes: vec![STREAM_STATE_ERROR] });
+    for (name, id) in [("max-stream-data-on-unopened-local-bidi", unopened_bi), ("max-stream-data-on-unopened-local-uni", unopened_uni)] {
+        f.clear();
+        f.push(0x11);
+        put_var(&mut f, id);
+        put_var(&mut f, 100_000);
+        c.push(Targeted { name, frames: f.clone(), codes: vec![STREAM_STATE_ERROR] });
+    }
+    for (name, id) in [("stop-sending-on-unopened-local-bidi", unopened_bi), ("stop-sending-on-unopened-local-uni", unopened_uni)] {
+        f.clear();
+        f.push(0x05);
+        put_var(&mut f, id);
+        put_var(&mut f, 7);
+        c.push(Targeted { name, frames: f.clone(), codes: vec![STREAM_STATE_ERROR] });
+    }
+    // STREAM_DATA_BLOCKED on a stream the victim only sends on (§19.13)
+    f.clear();
+    f.push(0x15);
+    put_var(&mut f, victim_uni0);
+    put_var(&mut f, 10);
+    c.push(Targeted { name: "stream-data-blocked-on-send-only", frames: f.clone(), codes: vec![STREAM_STATE_ERROR] });
+    // STREAMS_BLOCKED above 2^60 (§19.14)
+    for (name, ty) in [("streams-blocked-bidi-too-large", 0x16u8), ("streams-blocked-uni-too-large", 0x17)] {
+        f.clear();
+        f.push(ty);
+        put_var(&mut f, (1 << 60) + 1);
+        c.push(Targeted { name, frames: f.clone(), codes: vec![FRAME_ENCODING_ERROR, STREAM_LIMIT_ERROR] });
+    }
+    // NEW_CONNECTION_ID with an impossible length (§19.15)
+    for (name, len) in [("new-cid-length-zero", 0u8), ("new-cid-length-21", 21)] {
+        f.clear();
+        f.push(0x18);
+        put_var(&mut f, 6);
+        put_var(&mut f, 0);
+        f.push(len);
+        f.extend_from_slice(&vec![9; len as usize]);
+        f.extend_from_slice(&[7; 16]);
+        c.push(Targeted { name, frames: f.clone(), codes: vec![FRAME_ENCODING_ERROR] });
+    }
+    // more connection IDs than the victim's active_connection_id_limit allows (§5.1.1) — or any
+    // at all while the victim addresses the attacker with a zero-length ID (§19.15)
+    f.clear();
+    for seq in 20u64..32 {
+        f.push(0x18);
+        put_var(&mut f, seq);
+        put_var(&mut f, 0);
+        f.push(8);
+        f.extend_from_slice(&[0xC0 | seq as u8; 8]);
+        f.extend_from_slice(&[seq as u8; 16]);
+    }
+    c.push(Targeted { name: "new-cid-beyond-active-limit", frames: f.clone(), codes: vec![if attacker_cid_len == 0 { PROTOCOL_VIOLATION } else { CONNECTION_ID_LIMIT_ERROR }] });
+    // offsets past 2^62-1 (§19.6, §19.8)
+    f.clear();
+    f.push(0x06);
+    put_var(&mut f, (1 << 62) - 1);
+    put_var(&mut f, 2);
+    f.extend_from_slice(b"xy");
+    c.push(Targeted { name: "crypto-offset-overflow", frames: f.clone(), codes: vec![FRAME_ENCODING_ERROR, CRYPTO_BUFFER_EXCEEDED] });
+    f.clear();
+    f.push(0x0e);
+    put_var(&mut f, attacker_bidi(50));
+    put_var(&mut f, (1 << 62) - 1);
+    put_var(&mut f, 2);
+    f.extend_from_slice(b"xy");
+    c.push(Targeted { name: "stream-offset-overflow", frames: f.clone(), codes: vec![FRAME_ENCODING_ERROR, FLOW_CONTROL_ERROR] });
+    // RESET_STREAM whose final size lies beyond every limit the victim advertised (§4.5)
+    f.clear();
+    f.push(0x04);
+    put_var(&mut f, attacker_bidi(50));
+    put_var(&mut f, 1);
+    put_var(&mut f, (1 << 62) - 1);
+    c.push(Targeted { name: "reset-final-size-beyond-limits", frames: f.clone(), codes: vec![FLOW_CONTROL_ERROR] });
     c
 }
 
@@ -374,6 +468,11 @@ pub struct C03Scen {
     mode: u32,
     attacker_inc: u32,
     victim_inc: u32,
+    /// the client connection of the attacked pair (what the workload's `unchecked` set and the
+    /// pairing are keyed by), whichever of the two ends is the attacker
+    pair_key: u32,
+    /// targeted worlds: the *server* end of the pair is the attacker, the client the victim
+    hostile_server: bool,
     attacks: u32,
     targeted: Option<Targeted>,
     targeted_sent_at: Option<u64>,
@@ -616,8 +715,13 @@ impl Scenario for C03Scen {
     }
     fn on_accepted(&mut self, w: &mut World, inc: u32, dgram: u32) {
         self.b.on_accepted(w, inc, dgram);
-        if w.conns[inc as usize].peer == self.attacker_inc && self.victim_inc == NO_INC {
-            self.victim_inc = inc;
+        if w.conns[inc as usize].peer == self.pair_key && self.victim_inc == NO_INC {
+            if self.hostile_server {
+                self.attacker_inc = inc;
+                self.victim_inc = self.pair_key;
+            } else {
+                self.victim_inc = inc;
+            }
         }
     }
     fn on_event(&mut self, w: &mut World, inc: u32, ev: Event) {
@@ -667,8 +771,18 @@ fn run(ch: Chooser, ctx: &RunCtx, mode: u32) -> RunOut {
     opts.retry = 0;
     opts.cid_len_choices = vec![8, 8, 4, 20, 0];
     opts.force_client_pad = true;
+    let hostile_server = match mode {
+        1 => w.ch.chance("c03.targeted.hostile_server", 1, 2),
+        0 | 3 => w.ch.chance("c03.hostile_server", 1, 3),
+        _ => false,
+    };
+    if hostile_server && mode != 1 {
+        opts.pad_rate = 1000;
+    }
     if mode == 1 {
-        opts.fixed_knobs = Some((crate::cfgs::TKnobs::default(), crate::cfgs::TKnobs { pad_to_mtu: true, ..Default::default() }));
+        // (the attacker pads every packet so that there is room to overwrite)
+        let padded = crate::cfgs::TKnobs { pad_to_mtu: true, ..Default::default() };
+        opts.fixed_knobs = Some(if hostile_server { (padded, crate::cfgs::TKnobs::default()) } else { (crate::cfgs::TKnobs::default(), padded) });
     }
     if mode == 3 {
         // lean world: the ledgers must not grow with the flood
@@ -679,11 +793,15 @@ fn run(ch: Chooser, ctx: &RunCtx, mode: u32) -> RunOut {
     // client 0 is the attacker: pad every packet so that there is room to overwrite
     let attacker_inc = *b.client_incs.first().unwrap_or(&NO_INC);
     b.wl.unchecked.insert(attacker_inc);
-    let mut sc = C03Scen { b, mode, attacker_inc, victim_inc: NO_INC, attacks: 0, targeted: None, targeted_sent_at: None, flood_kind: 0, flood_packets: 0, base_live: crate::alloc::live(), peak_growth: 0, last_attack_at: 0 };
+    let mut sc = C03Scen { b, mode, attacker_inc: if hostile_server { NO_INC } else { attacker_inc }, victim_inc: NO_INC, pair_key: attacker_inc, hostile_server, attacks: 0, targeted: None, targeted_sent_at: None, flood_kind: 0, flood_packets: 0, base_live: crate::alloc::live(), peak_growth: 0, last_attack_at: 0 };
     if mode == 1 {
-        let cases = targeted_cases(sc.b.server_knobs.max_bidi);
+        let attacker_cid_len = w.nodes[if hostile_server { sc.b.server } else { sc.b.clients[0] } as usize].cid_len;
+        let cases = targeted_cases(!hostile_server, if hostile_server { sc.b.client_knobs.max_bidi } else { sc.b.server_knobs.max_bidi }, attacker_cid_len);
         let i = w.ch.choose("c03.targeted.case", cases.len() as u32) as usize;
         sc.targeted = Some(cases[i].clone());
+    }
+    if hostile_server {
+        w.faults.hit("hostile_server");
     }
     if mode == 3 {
         sc.flood_kind = w.ch.choose("c03.flood.kind", 7);
@@ -697,7 +815,7 @@ fn run(ch: Chooser, ctx: &RunCtx, mode: u32) -> RunOut {
         // isolation: honest connections (not paired with the attacker) are unaffected
         for c in &w.conns {
             let key = if c.side == Side::Client { c.inc } else { c.peer };
-            if key == sc.attacker_inc || key == NO_INC {
+            if key == sc.pair_key || key == NO_INC {
                 continue;
             }
             if let Some(r) = c.lost.first() {
@@ -740,6 +858,7 @@ fn run(ch: Chooser, ctx: &RunCtx, mode: u32) -> RunOut {
                                 w.violate(k, d);
                             } else {
                                 w.probes.hit("targeted_violation_rejected_with_right_code");
+                                w.probes.hit(t.name);
                             }
                         }
                     }
@@ -762,7 +881,7 @@ fn run(ch: Chooser, ctx: &RunCtx, mode: u32) -> RunOut {
     }
     if w.violations.is_empty() {
         // the attacked pair's own losses are expected; forget them before the generic end checks
-        let att = sc.attacker_inc;
+        let att = sc.pair_key;
         for c in w.conns.iter_mut() {
             let key = if c.side == Side::Client { c.inc } else { c.peer };
             if key == att {
@@ -786,7 +905,7 @@ fn run(ch: Chooser, ctx: &RunCtx, mode: u32) -> RunOut {
         o.stats.insert("flood_heap_growth_bytes", growth as f64);
     }
     o.stats.insert("frames_injected", w.tap.lock().unwrap().injected as f64);
-    o.config = format!("mode={} targeted={:?} flood_kind={} server={:?} attacker_client={:?}", mode, sc.targeted.as_ref().map(|t| t.name), sc.flood_kind, sc.b.server_knobs, sc.b.client_knobs);
+    o.config = format!("mode={} hostile_server={} targeted={:?} flood_kind={} server={:?} attacker_client={:?}", mode, sc.hostile_server, sc.targeted.as_ref().map(|t| t.name), sc.flood_kind, sc.b.server_knobs, sc.b.client_knobs);
     o
 }
 
